@@ -21,14 +21,21 @@ extern int      g_exit_code;
     __CPROVER_loop_invariant(!(gk_idx < (unsigned)z) || FilterBytes[gk_idx] != Header)      \
     __CPROVER_decreases(FilterCnt - z)
 
+/* CMD_FilterList search loop: Search runs up to the first entry equal to the id; entries before it differ (witness gk_idx) */
+#define VERIF_LOOP_toolutils_filterlist                                                     \
+    __CPROVER_assigns(Search)                                                               \
+    __CPROVER_loop_invariant(0 <= Search && Search <= FilterCnt)                            \
+    __CPROVER_loop_invariant(!(gk_idx < (unsigned)Search) || FilterBytes[gk_idx] != FTemp)  \
+    __CPROVER_decreases(FilterCnt - Search)
+
 #ifdef VERIF_CBMC
 static Boolean DoFilter;
 static int     FilterCnt;
-static Byte    FilterBytes[100];
+static Byte    FilterBytes[256]; /* must repeat the definition in toolutils.c (a mismatch makes the group undecided, never a violation) */
 
 /* FilterOK(h): no filter => everything passes; otherwise h passes iff it is in the list */
 Boolean FilterOK(Byte Header)
-    __CPROVER_requires(FilterCnt >= 0 && FilterCnt <= 100)
+    __CPROVER_requires(FilterCnt >= 0 && FilterCnt <= 256)
     __CPROVER_ensures(DoFilter || __CPROVER_return_value)
     /* a listed id passes (witness entry) */
     __CPROVER_ensures(!(DoFilter && gk_idx < (unsigned)FilterCnt && FilterBytes[gk_idx] == Header) || __CPROVER_return_value)
